@@ -1069,7 +1069,9 @@ func (x *Exec) evalSpecCall(ce *CEnv, sp *FuncContract, argEs []Expr) *Val {
 	n.lets = nil
 	n.depth = ce.depth + 1
 	n.pkg = x.specPkg(ce, sp)
-	// bound variables stay visible (spec bodies are closed except for params)
+	// a spec body is closed: it sees its parameters only (an enclosing
+	// quantifier's variable of the same name must not capture a parameter)
+	n.bound = nil
 	r := x.eval(&n, sp.Body.E)
 	if sp.RetType != "" {
 		if rt := x.prog.resolveType(n.pkg, sp.RetType); rt != nil {
